@@ -130,3 +130,37 @@ func (s *Store[K, V]) spec_DeleteWithSecondary(key K) (err error) {
 	ensures("other_keys", sp_sameExcept(sp_home(s, key), key))
 	return
 }
+
+// ---- C19 / C11: SaveCache takes a consistent snapshot -----------------------------------------------------------------
+
+// one region is written with the policy lock and the shard read locks held by the caller (it reads key, value,
+// cost and deadline of every entry of the region: shard domain; links and flags: policy domain)
+func (l *List[K, V]) spec_Persist(writer any, blockEncoder any, sketch *CountMinSketch, hasher any, tp uint8) (err error) {
+	flag("holds_policy")
+	flag("holds_shardR")
+	reveal("op_ring", "op_flags")
+	requires("inv", sp_listInv(l))
+	requires("sketch", sketch != nil && sp_wfSketch(sketch) && sp_J(sketch) && hasher != nil)
+	return
+}
+
+// the cursor is a member of the region (or the walk is over)
+func (l *List[K, V]) spec_Persist_loop1(er *Entry[K, V], block any) {
+	invariant("member", er == nil || gh_po_in(l, er))
+	invariant("block", block != nil)
+}
+
+// the policy lock and then EVERY shard read lock are taken before anything is written and are held until the
+// function returns (the releases are deferred)
+func (s *Store[K, V]) spec_Persist(version uint64, writer any) (err error) {
+	requires("wf", sp_wfStore(s) && sp_policyInv(s.policy) && sp_sketchInv(s.policy.sketch))
+	return
+}
+
+func (s *Store[K, V]) spec_Persist_loop1(idx_ int) {
+	flag("accumulates_locks")
+	invariant("held_so_far", all(func(j uint) bool { return imp(j < uint(idx_), heldR(s.shards[j].mu)) }))
+	invariant("some_held", imp(idx_ > 0, heldShardR()))
+	invariant("policy_held", heldPolicy())
+	invariant("rest_free", all(func(j uint) bool { return imp(j >= uint(idx_) && j < s.shardCount, !heldR(s.shards[j].mu) && !held(s.shards[j].mu)) }))
+}
